@@ -25,6 +25,12 @@
 //       reads the case lines of harness/emit_a64.cpp ([<tag> TAB] text; parsed by emit_a64's own operand parser, which this
 //       file includes unmodified) and calls InstAPI::validate(Arch::kAArch64, ...).
 //       output line:  <tag> TAB <error code> TAB <error name>      (-1 / -2 = unknown mnemonic / operand syntax, like emit_a64)
+//   c13_names --mode emit-a64-warm [--validate 1] --in FILE --res FILE
+//       same input; emits a NOP first and then the case through a64::Assembler::_emit_op_array, without / with
+//       DiagnosticOptions::kValidateAssembler.  harness/emit_a64 emits every case as the FIRST instruction of a fresh
+//       CodeHolder, which makes also the non-validating assembler take its slow path (buffer growth); here the non-validating
+//       run takes the fast path, the validating one the slow path - the situation of real code.
+//       output line:  <tag> TAB <error code> TAB <error name> TAB <hex of the bytes appended after the NOP>
 //   c13_names --mode probe-a64
 //       prints "stub" when a64 validate() accepts instruction id 0 / _kIdCount / a plainly absurd operand list, else "real".
 #include <asmjit/core.h>
@@ -452,7 +458,8 @@ static int run_validate_x86(const std::string& in_path, const std::string& out_p
 // ---------------------------------------------------------------------------------------------------------------
 // a64 validate filter (grammar and operand parser of harness/emit_a64.cpp)
 // ---------------------------------------------------------------------------------------------------------------
-static int run_validate_a64(const std::string& in_path, const std::string& out_path) {
+// emit_mode: 0 = call InstAPI::validate();  1 / 2 = emit into a WARMED-UP buffer without / with kValidateAssembler
+static int run_validate_a64(const std::string& in_path, const std::string& out_path, int emit_mode = 0) {
   FILE* fin = fopen(in_path.c_str(), "r");
   FILE* fout = fopen(out_path.c_str(), "w");
   if (!fin || !fout) { fprintf(stderr, "c13_names: cannot open files\n"); return 2; }
@@ -526,6 +533,19 @@ static int run_validate_a64(const std::string& in_path, const std::string& out_p
       inst_id = want_v ? ids->back() : ids->front();
     }
     if (cc >= 0) inst_id = BaseInst::compose_arm_inst_id(inst_id, arm::CondCode(cc));
+    if (emit_mode) {
+      // A NOP first: the code buffer now has room, so the non-validating assembler takes its FAST path for the case (a fresh
+      // CodeHolder makes the very first instruction take the slow "grow the buffer" path, which is also the path every
+      // validated instruction takes).  Labels were bound at offset 0 while the operands were parsed - in both modes alike.
+      if (as._emit_op_array(a64::Inst::kIdNop, ops, 0) != Error::kOk) { fprintf(stderr, "c13_names: cannot emit the warm-up nop\n"); return 2; }
+      if (emit_mode == 2) as.add_diagnostic_options(DiagnosticOptions::kValidateAssembler);
+      size_t off = as.offset();
+      Error err = as._emit_op_array(inst_id, ops, nops);
+      const CodeBuffer& cb = code.text_section()->buffer();
+      std::string hx = cb.size() > off ? vh::hex(cb.data() + off, cb.size() - off) : std::string();
+      fprintf(fout, "%s\t%u\t%s\t%s\n", tag.c_str(), unsigned(err), DebugUtils::error_as_string(err), hx.c_str());
+      continue;
+    }
     Error err = InstAPI::validate(Arch::kAArch64, BaseInst(inst_id), ops, nops, ValidationFlags::kNone);
     fprintf(fout, "%s\t%u\t%s\n", tag.c_str(), unsigned(err), DebugUtils::error_as_string(err));
   }
@@ -553,6 +573,7 @@ int main(int argc, char** argv) {
   std::string mode = c.opt("mode", "names");
   if (mode == "validate-x86") return c13::run_validate_x86(c.opt("in"), c.opt("res"));
   if (mode == "validate-a64") return c13::run_validate_a64(c.opt("in"), c.opt("res"));
+  if (mode == "emit-a64-warm") return c13::run_validate_a64(c.opt("in"), c.opt("res"), c.opt("validate") == "1" ? 2 : 1);
   if (mode == "probe-a64") return c13::run_probe_a64();
   return c13::run_names();
 }
